@@ -75,6 +75,9 @@ def equiv_check(kinds, what):
     automaton (C02) or with the automaton before minimisation (C03)."""
     def chk(K, prop, tier, seed, t0):
         q = tier == "quick"
+        mfns = [(lambda nm=nm, mod=mod, cfg=cfg, params=params, neg=neg: K.run_model_leg(prop, nm, mod, cfg, params, expect_violation=neg, workers=4))
+                for (nm, mod, cfg, params, neg) in MODEL_LEGS.get(prop, lambda q: [])(q)]
+        mreps = K.run_legs(mfns, parallel=3)
         tabs = [K.emit_tables(prop, "tab-pairs", dict(CFGS="U_C01_pairs", HI=1200 if q else "Len(Cfgs)")),
                 K.emit_tables(prop, "tab-singles", dict(CFGS="U_C01_singles", HI=1500 if q else "Len(Cfgs)")),
                 K.emit_tables(prop, "tab-la", dict(CFGS="U_C04", SYMS="Syms_C04", HI=600 if q else "Len(Cfgs)"))]
@@ -136,7 +139,8 @@ def equiv_check(kinds, what):
                         "or corpus configuration; decided for ALL strings by exhaustive exploration of the product over the atoms "
                         "(partition of all 1,112,064 scalars); non-trivial = more than 2 states",
                    exhaustive=True, source_programs=info["programs"], skipped_unsupported=info["skipped_unsupported"],
-                   sources=sources, what=what)
+                   sources=sources, what=what,
+                   design_models=[{k: r[k] for k in ("name", "module", "expect", "tlc_distinct", "wall_s")} for r in mreps])
         K.write_evidence(prop, tier, seed, "translation_validation", cov,
                          ["TLC and its Json module; regex-syntax parser; the verif_dump/verif_eval_class hooks copy the compiled data faithfully "
                           "(cross-checked by the C01 trace legs which scan with the same automata)",
@@ -154,6 +158,11 @@ def ff_cfg(a):
     return f"INIT FInit\nNEXT FNext\nINVARIANT Refines\nCONSTANTS\n  FixCandidates = {a}\nCHECK_DEADLOCK FALSE\n"
 
 
+def pipe_cfg(drop, ignore, gw):
+    return (f"INIT PInit\nNEXT PNext\nINVARIANT PipelineCorrect\nCONSTANTS\n  DropLeadingEmptyAlt = {drop}\n  IgnoreTypes = {ignore}\n"
+            f"  GW = {gw}\nCHECK_DEADLOCK FALSE\n")
+
+
 # layer-B models (design level): must refine the user-level specification; the unrepaired
 # variants must be refuted (non-vacuity)
 MODEL_LEGS = {
@@ -161,6 +170,19 @@ MODEL_LEGS = {
         ("M-IterImpl", "IterImpl", iter_cfg("TRUE", "TRUE"), dict(CFGS="U_C09", SYMS="Syms_C09", MAXLEN=4 if q else 5), False),
         ("M-IterImpl-stale-last-char", "IterImpl", iter_cfg("FALSE", "TRUE"), dict(CFGS="U_C09", SYMS="Syms_C09", MAXLEN=3), True),
         ("M-IterImpl-exhaust-at-last-position", "IterImpl", iter_cfg("TRUE", "FALSE"), dict(CFGS="U_C09", SYMS="Syms_C09", MAXLEN=3), True),
+    ],
+    "C02": lambda q: [
+        ("M-Pipeline-pairs", "Pipeline", pipe_cfg("FALSE", "FALSE", 0), dict(CFGS="U_C01_pairs", MAXLEN=4, HI=600 if q else "Len(Cfgs)"), False),
+        ("M-Pipeline-singles", "Pipeline", pipe_cfg("FALSE", "FALSE", 0), dict(CFGS="U_C01_singles", MAXLEN=4, HI=1500 if q else "Len(Cfgs)"), False),
+        ("M-Pipeline-leading-empty-alternative-dropped", "Pipeline", pipe_cfg("TRUE", "FALSE", 0), dict(CFGS="U_C01_singles", MAXLEN=3, HI=1500), True),
+    ],
+    "C03": lambda q: [
+        ("M-Minimize-triples", "Pipeline", pipe_cfg("FALSE", "FALSE", 0), dict(CFGS="U_C01_triples", MAXLEN=4, HI=500 if q else "Len(Cfgs)"), False),
+        ("M-Minimize-initial-partition-ignores-types", "Pipeline", pipe_cfg("FALSE", "TRUE", 0), dict(CFGS="U_C01_pairs", MAXLEN=3, HI=300), True),
+    ],
+    "C17": lambda q: [
+        ("M-Minimize-keywords-unbounded-ids", "Pipeline", pipe_cfg("FALSE", "FALSE", 0), dict(CFGS="U_PipeW", MAXLEN=4), False),
+        ("M-Minimize-keywords-2-bit-group-ids", "Pipeline", pipe_cfg("FALSE", "FALSE", 2), dict(CFGS="U_PipeW", MAXLEN=4), True),
     ],
     "C05": lambda q: [
         ("M-FindFrom", "FindFrom", ff_cfg("TRUE"), dict(CFGS="U_C05", SYMS="Syms_C04", MAXLEN=4, HI=2500 if q else "Len(Cfgs)"), False),
@@ -529,6 +551,8 @@ def check_C14(K, prop, tier, seed, t0):
 
 def check_C17(K, prop, tier, seed, t0):
     q = tier == "quick"
+    mreps = [K.run_model_leg(prop, nm, mod, cfg, params, expect_violation=neg, workers=4)
+             for (nm, mod, cfg, params, neg) in MODEL_LEGS["C17"](q)]
     rec = os.path.join(K.WORK, f"{prop}-{os.getpid()}", "large")
     p = subprocess.run([K.HARNESS, "large", rec, "keywords" if q else "both"], env=K.base_env(), stdout=subprocess.PIPE, stderr=subprocess.PIPE, text=True, timeout=3 * 3600)
     if p.returncode != 0:
@@ -545,7 +569,8 @@ def check_C17(K, prop, tier, seed, t0):
                     "a{66000}b on a^66000 b, one less, 2^16 less, and the lengths around 465 that a wrapped group id accepts. Each run is recorded "
                     "and validated by TLC against Tokenizer (Trace_Api); a build error is an admissible outcome; distinct_nontrivial = inputs scanned",
                samples=[{k: m[k] for k in ("what", "inputs", "build_seconds")} for m in meta],
-               traces_validated_against_impl=stats["accepted"] + stats["rejected"], states=max(1, stats["states"]), transitions=max(1, stats["states"]))
+               traces_validated_against_impl=stats["accepted"] + stats["rejected"], states=max(1, stats["states"]), transitions=max(1, stats["states"]),
+               design_models=[{k: r[k] for k in ("name", "module", "expect", "tlc_distinct", "wall_s")} for r in mreps])
     K.write_evidence(prop, tier, seed, "exploration", cov,
                      ["nothing smaller than 2^16 states can expose the property: the check is a handful of full-scale cases judged by the specification",
                       "build time of the code under test dominates (about 130 s for (a), about 20 min for (b))"], time.time() - t0, len(viols))
